@@ -318,6 +318,12 @@ def gen_tracks(shard):
                 bars = [Z.bar_recipe(Z.PATTERNS_WHOLE[p], key="eb", meter=(4, 4)) for p in pats]
             for instr in (None, ["midi", 13]):
                 yield {"comp": {"tracks": [{"name": "Tr", "instrument": instr, "bars": bars}]}, "bpm": 120}
+    if not mixed:
+        # one Bar object standing at several places of a track
+        for p1 in range(n):
+            two = [Z.bar_recipe(Z.PATTERNS_WHOLE[p0], key="G", meter=(4, 4)), Z.bar_recipe(Z.PATTERNS_WHOLE[p1], key="G", meter=(4, 4))]
+            for order in ([0, 0], [0, 1, 0], [0, 1, 1], [1, 0, 0], [0, 0, 1, 1]):
+                yield {"comp": {"tracks": [{"name": "Sh", "instrument": None, "bars": two, "order": order}]}, "bpm": 120}
 
 
 COMPOSITION_TRACKS = [
@@ -423,6 +429,59 @@ def gen_keys_meters(shard):
             for nbars in (1, 2):
                 bars = [Z.bar_recipe(Z.PATTERNS_WHOLE[(p + 5 * i) % 12], key=key, meter=meter) for i in range(nbars)]
                 yield {"comp": {"tracks": [{"name": None, "instrument": None, "bars": bars}]}, "bpm": 120}
+    # compositions whose tracks differ in key (and meter): every ordered pair of keys, and three tracks returning to the first key
+    for j, key2 in enumerate(Z.KEYS30):
+        m1, m2 = Z.METERS[j % len(Z.METERS)], Z.METERS[(j + 1) % len(Z.METERS)]
+        t1 = {"name": "k1", "instrument": None, "bars": [Z.bar_recipe(Z.PATTERNS_WHOLE[0], key=key, meter=m1)]}
+        t2 = {"name": "k2", "instrument": None, "bars": [Z.bar_recipe(Z.PATTERNS_WHOLE[3], key=key2, meter=m2)]}
+        yield {"comp": {"tracks": [t1, t2]}, "bpm": 120}
+        if j % 5 == 0:
+            yield {"comp": {"tracks": [t1, t2, dict(t1, name="k3")]}, "bpm": 90}
+
+
+def _summary(result):
+    comp, bpm = result
+    return [bpm, [[t.name, [(ticks, sorted(n.items())) for ticks, n in flatten_bars(t.bars)],
+                   [(tuple(b.meter), key_pair(b.key)) for b in t.bars]] for t in comp.tracks]]
+
+
+REUSE_PROGRAMS = [
+    {"comp": {"tracks": [{"name": "p0", "instrument": None, "bars": [Z.bar_recipe(Z.PATTERNS_WHOLE[0], key="C", meter=(4, 4))]}]}, "bpm": 120},
+    {"comp": {"tracks": [{"name": "p1", "instrument": ["midi", 40], "bars": [Z.bar_recipe(Z.PATTERNS_WHOLE[3], key="Ab", meter=(3, 4))]}]}, "bpm": 77},
+    {"comp": {"tracks": [{"name": "p2a", "instrument": None, "bars": [Z.bar_recipe(Z.PATTERNS_WHOLE[2], key="f#", meter=(6, 8))]},
+                         {"name": "p2b", "instrument": ["midi", 5], "bars": [Z.bar_recipe(Z.PATTERNS_WHOLE[1], key="C", meter=(4, 4))]}]}, "bpm": 200},
+    {"comp": {"tracks": [{"name": "p3", "instrument": None, "bars": []}]}, "bpm": 120},
+    {"comp": {"tracks": [{"name": "", "instrument": None, "bars": [Z.bar_recipe(Z.PATTERNS_WHOLE[5], key="a", meter=(2, 2))]}]}, "bpm": 60},
+]
+
+
+def run_reader_reuse(case):
+    """case = [i, j, k]: one reader object reads the files of programs i, j, k in turn; every result must be what a
+    fresh reader makes of that file."""
+    S = engine.S
+    with Z.midi_dir("verif-c17-") as d:
+        paths, fresh = [], []
+        for n, idx in enumerate(case):
+            prog = REUSE_PROGRAMS[idx]
+            path = os.path.join(d, "f%d.mid" % n)
+            MFO.write_Composition(path, Z.build_composition(prog["comp"]), prog["bpm"])
+            paths.append(path)
+            fresh.append(_summary(MFI.MidiFile().MIDI_to_Composition(path)))
+            viafn = _summary(MFI.MIDI_to_Composition(path))
+            if viafn != fresh[-1]:
+                S.problem("MIDI_to_Composition(file of program %d) vs a new MidiFile().MIDI_to_Composition" % idx, fresh[-1], viafn)
+        reader = MFI.MidiFile()
+        for n, idx in enumerate(case):
+            got = _summary(reader.MIDI_to_Composition(paths[n]))
+            S.trans(1)
+            if got != fresh[n]:
+                S.problem("one reader object reading the files of programs %r in turn: result %d" % (list(case), n + 1), fresh[n], got)
+                break
+    S.count("reader_reuse_sequences")
+    S.outcome(tuple(case))
+
+
+CLAUSES["reader_reuse"] = run_reader_reuse
 
 
 NAME_SET = ["", "a", "Untitled", "<&>\"'", "Lead 1", "with  spaces ", "~!@#$%^&*()_+{}|:?", "x" * 127, "x" * 128, "y" * 200, "z" * 16384]
@@ -504,6 +563,10 @@ def explore(ctx):
         tmax = ctx.pick(576, 1152)
         ctx.bound("tick_counts", "every whole tick count 1..%d as the float value 288.0/t (note, rest, chord; leading note / leading rest)" % tmax)
         ctx.product("tick_counts", [list(range(1 + i, tmax + 1, 16)) for i in range(16)], gen_tick_counts)
+    if ctx.want("reader_reuse"):
+        n = len(REUSE_PROGRAMS)
+        ctx.bound("reader_reuse", "every sequence of 3 files over %d programs read by one reader object" % n)
+        ctx.product("reader_reuse", list(range(n)), lambda i: ([i, j, k] for j in range(n) for k in range(n)))
     if ctx.want("format_words"):
         ctx.bound("format_words", "all 65536 values of the 16-bit format word of a valid file")
         ctx.product("format_words", list(range(256)), lambda hi: [hi])
